@@ -207,7 +207,7 @@ def run_optional(case):
         cs = rng.sample(cs, case["limit"])
     for c in cs:
         tt = TT(acc, base, c)
-        hold = {o["id"]: tt.leaf({k: v for k, v in o.items() if k not in ("optional", "id")}) for o in opts}
+        hold = {o["id"]: tt.value({k: v for k, v in o.items() if k not in ("optional", "id")}) for o in opts}
         for flags in itertools.product((False, True), repeat=len(opts)):
             applied = {o["id"]: f for o, f in zip(opts, flags)}
             pins = pr.candidate_pins(spec, c) + [
@@ -319,6 +319,27 @@ def generate(tier, seed):
                              "n": n, "mode": mode})
             cases.append({"cid": f"optional-{nopt}-{mode}-{n}", "family": "optional", "kind": "optional",
                           "spec": dict(spec, constraints=cons), "limit": 10 if tier == "quick" else 100, "rng": seed})
+    # first-order-logic constraints that are themselves optional (alone, and next to a plain optional constraint under a
+    # force-apply rule): leaving one unapplied must switch off every branch of it
+    plain = [x for x in leaf_pool(False) if x["kind"] != "expr"]
+    for fi, (ia, ib) in enumerate(((0, 1), (1, 2), (2, 0), (3, 1))):
+        A, B = plain[ia % len(plain)], plain[ib % len(plain)]
+        forms = [{"kind": "Not", "arg": A}, {"kind": "And", "args": [A, B]}, {"kind": "Or", "args": [A, B]},
+                 {"kind": "Xor", "a": A, "b": B}, {"kind": "Implies", "cond": CONDS[fi % 2], "args": [A, B]},
+                 {"kind": "IfThenElse", "cond": CONDS[(fi + 1) % 2], "then": [A], "else": [B]}]
+        for f in forms:
+            if tier == "quick" and fi > 1 and f["kind"] not in ("IfThenElse", "Implies"):
+                continue
+            fo = with_ids(copy.deepcopy(f), [100])
+            fo.update(id="o0", optional=True)
+            cases.append({"cid": f"optional-fol-{f['kind']}-{fi}", "family": "optional-fol", "kind": "optional",
+                          "spec": dict(spec, constraints=[fo]), "limit": 8 if tier == "quick" else 100, "rng": seed + fi})
+            other = dict(copy.deepcopy(plain[(ia + 2) % len(plain)]), id="o1", optional=True)
+            mode, n = (("max", 1), ("min", 1), ("exact", 1), ("max", 2))[fi]
+            cases.append({"cid": f"optional-fol-force-{f['kind']}-{fi}", "family": "optional-fol", "kind": "optional",
+                          "spec": dict(spec, constraints=[copy.deepcopy(fo), other, {
+                              "id": "fa", "kind": "ForceApplyNOptionalConstraints", "constraints": ["o0", "o1"], "n": n,
+                              "mode": mode}]), "limit": 5 if tier == "quick" else 60, "rng": seed + fi})
     # expressions
     exprs = [["<", ["+", ["start", "t0"], ["duration", "t1"]], 3], ["==", ["*", ["start", "t1"], 2], ["end", "t1"]],
              ["or", ["<", ["end", "t0"], ["start", "t1"]], [">", ["start", "t0"], ["end", "t1"]]],
